@@ -170,6 +170,8 @@ def writer_main(jobfile):
                 with contextlib.redirect_stdout(io.StringIO()), warnings.catch_warnings():
                     warnings.simplefilter("ignore")
                     ish = gen_map.internal_shapes_arg(spec)
+                    if case.get("ishape_int") and ish:  # one-axis internal shapes spelled as ints (what the folder records must round-trip)
+                        ish = {k_: (v_[0] if len(v_) == 1 else v_) for k_, v_ in ish.items()}
                     if scope and ish:
                         ish = {f"{scope}.{k}": v for k, v in ish.items()}
                     r = p.map(dict(inputs), run_folder=folder, internal_shapes=ish, parallel=False,
@@ -265,6 +267,10 @@ def run_batch(cases, seq):
 
 # ------------------------------------------------------------------------------------------------
 def specs_for(tier):
+    # hand-written extras: None elements, a dict-returning function with a custom output_picker, a 1-tuple output name,
+    # a list-valued output
+    from . import c03
+    yield from c03.EXTRA_PIPES.values()
     # one function with THREE outputs: run_info.json spells the tuple-named keys "a,b,d"
     yield from gen_map.pipelines(1, f_outs=[("a", "b", "d")])
     for s in gen_map.pipelines(2, "quick"):
@@ -299,6 +305,9 @@ def run_unit(unit):
         for st in sts:
             cases.append({"spec": spec, "storage": st})
             keys.append((gen_map.key(spec), str(st)) if gen_map.nontrivial(spec) else None)
+        if len(spec["funcs"]) == 1 and any(len(fn["internal"]) == 1 and fn.get("ishape_via", "map") == "map" for fn in spec["funcs"]):
+            cases.append({"spec": spec, "storage": "file_array", "ishape_int": True})
+            keys.append((gen_map.key(spec), "ishape-int") if gen_map.nontrivial(spec) else None)
         if len(spec["funcs"]) == 1 and len(spec["funcs"][0]["outs"]) == 1:
             cases.append({"spec": spec, "storage": "file_array", "prior": "stale-inputs"})
             keys.append((gen_map.key(spec), "stale-inputs") if gen_map.nontrivial(spec) else None)
@@ -320,7 +329,7 @@ def run_unit(unit):
 
 
 def replay(art):
-    case = {k: art[k] for k in ("spec", "storage", "scope", "prior") if k in art}
+    case = {k: art[k] for k in ("spec", "storage", "scope", "prior", "ishape_int") if k in art}
     res = run_batch([case], art.get("seq") or de_bruijn("ORX", 2))
     return [s for s, _ in res[0]]
 
